@@ -19,9 +19,9 @@ open Finset
 
 variable {𝕜 : Type} [CommRing 𝕜] [DecidableEq 𝕜]
 
-/-- shape clause of the QR kernel contract (`mode='reduced'`) -/
-def QRShape (dqr : Mat 𝕜 → Mat 𝕜 × Mat 𝕜) : Prop :=
-  ∀ B : Mat 𝕜, 0 < B.m → 0 < B.n →
+/-- shape clause of the QR kernel contract (`mode='reduced'`) at the matrix `B` -/
+def ShapeAt (dqr : Mat 𝕜 → Mat 𝕜 × Mat 𝕜) (B : Mat 𝕜) : Prop :=
+  0 < B.m → 0 < B.n →
     (dqr B).1.m = B.m ∧ (dqr B).1.n = min B.m B.n ∧ (dqr B).2.m = min B.m B.n ∧ (dqr B).2.n = B.n
 
 /-- the block of charge `c` handed to the dense kernel -/
@@ -52,7 +52,7 @@ structure SortedCtx (dqr : Mat 𝕜 → Mat 𝕜 × Mat 𝕜) (As : Mat 𝕜) (q
   hs1 : q1s.Pairwise (· ≤ ·)
   hl0 : q0s.length = As.m
   hl1 : q1s.length = As.n
-  shape : QRShape dqr
+  shape : ∀ c, c ∈ q0s → c ∈ q1s → ShapeAt dqr (blk As q0s q1s c)
 
 section
 variable {dqr : Mat 𝕜 → Mat 𝕜 × Mat 𝕜} {As : Mat 𝕜} {q0s q1s : List Int}
@@ -71,7 +71,7 @@ theorem SortedCtx.blk_shape (C : SortedCtx dqr As q0s q1s) {c : Int} (h0 : c ∈
   obtain ⟨b1, b2⟩ := block_nonempty h1
   have hm : (blk As q0s q1s c).m = lastIdxSucc q0s c - firstIdx q0s c := rfl
   have hn : (blk As q0s q1s c).n = lastIdxSucc q1s c - firstIdx q1s c := rfl
-  obtain ⟨s1, s2, s3, s4⟩ := C.shape (blk As q0s q1s c) (by omega) (by omega)
+  obtain ⟨s1, s2, s3, s4⟩ := C.shape c h0 h1 (by omega) (by omega)
   simp only [hm, hn] at s1 s2 s3 s4
   exact ⟨a1, C.hl0 ▸ a2, b1, C.hl1 ▸ b2, hm, hn, s1, s2, s3, s4⟩
 
